@@ -12,7 +12,10 @@ A=/tmp/wk/$1/verif; BASE=$(cat /tmp/wk/$1/BASE); cd /verif || exit 2
     if [ ! -e "$rel" ]; then echo "DELETED-HERE $rel"; continue; fi
     cmp -s "$rel" /tmp/m3_theirs.$$ && continue
     if git merge-file -p "$rel" /tmp/m3_base.$$ /tmp/m3_theirs.$$ > /tmp/m3_out.$$ 2>/dev/null; then cp /tmp/m3_out.$$ "$rel"; echo "merged $rel"
-    else cp /tmp/m3_out.$$ "$rel.merge-conflict"; echo "CONFLICT $rel -> $rel.merge-conflict"; fi
+    else case "$rel" in
+        KNOWN_FINDINGS.jsonl|runner/manifest_data.py|corpus/*.txt) grep -v -E "^(<<<<<<<|=======|>>>>>>>)( |$)" /tmp/m3_out.$$ > "$rel"; echo "union-merged $rel";;
+        *) cp /tmp/m3_out.$$ "$rel.merge-conflict"; echo "CONFLICT $rel -> $rel.merge-conflict";;
+      esac; fi
   else
     if [ -e "$rel" ]; then cmp -s "$rel" /tmp/m3_theirs.$$ || { cp /tmp/m3_theirs.$$ "$rel.merge-conflict"; echo "CONFLICT new-file-exists $rel"; }
     else mkdir -p "$(dirname "$rel")"; cp /tmp/m3_theirs.$$ "$rel"; echo "copied $rel"; fi
